@@ -17,7 +17,7 @@ def node_src(n, ind="") -> list[str]:
     L = []
     if k == "class":
         sup = next((f[6:] for f in flags if f.startswith("super-")), "none")
-        bases = {"none": "", "one": "(BaseA)", "two": "(BaseA, BaseB)", "aliased": "(AliasA)", "subscripted": "(GenBase[int])"}[sup]
+        bases = {"none": "", "one": "(BaseA)", "two": "(BaseA, BaseB)", "aliased": "(AliasA)", "subscripted": "(GenBase[int])", "userenum": "(BaseKind)"}[sup]
         L.append(f"{ind}class {name}{bases}:")
         body = []
         for c in n["ch"]:
